@@ -183,6 +183,13 @@ func run[E any, P fields.Ptr[E]](c *mon.Ctx, f *fields.Field[E, P]) {
 		new(big.Int).Lsh(one, 64), new(big.Int).Sub(new(big.Int).Lsh(one, 64), one), new(big.Int).Lsh(one, uint(f.Bits)),
 		rng.BigBits(1000), new(big.Int).Neg(rng.BigBits(700)), rng.BigBits(f.Bits), new(big.Int).Neg(rng.BigBits(f.Bits / 2)),
 		new(big.Int).Rsh(q, 1)}
+	// multiples of the group order q-1, short and long, of both signs, and their neighbours: x^(k(q-1)) = 1 for x != 0;
+	// an implementation that reduces long exponents modulo q-1 meets a zero exponent after the reduction
+	qm1 := new(big.Int).Sub(q, one)
+	for _, m := range []*big.Int{two, big.NewInt(-6), new(big.Int).Lsh(one, 200), new(big.Int).Neg(new(big.Int).Lsh(one, 70))} {
+		k := new(big.Int).Mul(qm1, m)
+		exps = append(exps, k, new(big.Int).Add(k, one), new(big.Int).Sub(k, one))
+	}
 	bases := []int{}
 	for i := range L.V {
 		if L.Cls[i] != "mont-limbs-mixed" && (L.Cls[i] != "2^k" && L.Cls[i] != "2^k+1" && L.Cls[i] != "-2^k" || i%3 == 0) {
